@@ -103,7 +103,7 @@ Has(t, kind) ==
 ----------------------------------------------------------------------------
 (* annotation lines *)
 
-Kinds == {"type", "type2", "field", "fieldvis", "param", "paramopt", "return", "return2", "alias", "vararg", "overload",
+Kinds == {"type", "type2", "field", "fieldvis", "fieldpub", "fieldpriv", "param", "paramopt", "return", "return2", "alias", "vararg", "overload",
           "class", "class1", "class2", "generic", "generic2", "enum", "enumstart", "enumend"}
 
 Comment == <<"@", "note">>     \* optional trailing  @comment
@@ -114,6 +114,8 @@ LineToks(kd, t, t2) ==
       [] kd = "type2"    -> <<"type">> \o Toks(t) \o <<",">> \o Toks(t2)
       [] kd = "field"    -> <<"field", "fname">> \o Toks(t)
       [] kd = "fieldvis" -> <<"field", "protected", "fname">> \o Toks(t)
+      [] kd = "fieldpub" -> <<"field", "public", "fname">> \o Toks(t)
+      [] kd = "fieldpriv" -> <<"field", "private", "fname">> \o Toks(t)
       [] kd = "param"    -> <<"param", "pname">> \o Toks(t)
       [] kd = "paramopt" -> <<"param", "pname", "?">> \o Toks(t)
       [] kd = "return"   -> <<"return">> \o Toks(t)
@@ -131,7 +133,16 @@ LineToks(kd, t, t2) ==
       [] kd = "enumstart" -> <<"enum", "start">>
       [] kd = "enumend"  -> <<"enum", "end">>
 
-Typed == {"type", "field", "fieldvis", "param", "paramopt", "return", "alias", "vararg"}
+\* what the line declares besides its types: the declared name and, for fields, the visibility
+Subject(kd) == CASE kd \in {"field", "fieldvis", "fieldpub", "fieldpriv"} -> "fname"
+                 [] kd \in {"param", "paramopt"} -> "pname"
+                 [] kd = "alias" -> "AliasN"
+                 [] kd \in {"class", "class1", "class2"} -> "CNew"
+                 [] OTHER -> ""
+Visibility(kd) == CASE kd = "fieldvis" -> "protected" [] kd = "fieldpriv" -> "private"
+                    [] kd \in {"field", "fieldpub"} -> "public" [] OTHER -> ""
+
+Typed == {"type", "field", "fieldvis", "fieldpub", "fieldpriv", "param", "paramopt", "return", "alias", "vararg"}
 Typed2 == {"type2", "return2"}
 Untyped == {"class", "class1", "class2", "generic", "generic2", "enum", "enumstart", "enumend"}
 
@@ -147,6 +158,8 @@ Init == /\ kind \in Kinds
            \/ kind \in Untyped /\ ty = Tab0 /\ ty2 = Tab0
         \* the comment variant only for a sample of the lines
         /\ (cmt => (kind \in Untyped \/ ty \in L1))
+        \* the explicit public / private spellings only around the shallow types
+        /\ (kind \in {"fieldpub", "fieldpriv"} => ty \in L1)
 
 Next == UNCHANGED vars
 
@@ -173,6 +186,7 @@ NormIdempotent == kind \in Typed => Norm(Norm(ty)) = Norm(ty)
 NoParenInNorm == kind \in Typed => ~Has(Norm(ty), "paren")
 
 Emit == PrintT("@@J " \o ToJson([fam |-> "annot", kind |-> kind, toks |-> Line, types |-> ExpTypes, typesdev |-> CollapseSeq(ExpTypes), cmt |-> cmt,
+                                 subject |-> Subject(kind), vis |-> Visibility(kind),
                                  const |-> (kind \in Typed \cup Typed2 /\ (Has(ty, "const") \/ Has(ty2, "const"))),
                                  paren |-> (kind \in Typed \cup Typed2 \cup {"overload"} /\ (Has(ty, "paren") \/ Has(ty2, "paren"))),
                                  fun |-> (kind \in Typed \cup Typed2 \cup {"overload"} /\ (Has(ty, "fun") \/ Has(ty2, "fun")))]))
